@@ -97,7 +97,7 @@ def run(ctx):
         ctx.violation("correspondence_mismatch", "Shachain.Exec.check_case",
                       {"case": c, "disagreeing_ops": [c["ops"][i] for i in opsidx[:5]],
                        "op_indices": opsidx},
-                      signature="shachain mismatch", failing_input=not predicate(c) == [] or False)
+                      signature="shachain mismatch", failing_input=bool(predicate(c)))
     if not pr["ok"] and not ctx.violations:
         ctx.violation("proof_broken", ", ".join(pr["broken"]) or "Shachain build",
                       {"log": pr["log"][-4000:]}, signature="proof", failing_input=False)
